@@ -133,3 +133,36 @@ Theorem gen_coq_structure d :
     concat_str (map (fun f => "(* " ++ fst f ++ " *)" ++ nl ++ concat_str (map coq_test (tests_of_file f)) ++ nl)
                     (filter (fun f => negb (skip_file (fst f))) d)).
 Proof. reflexivity. Qed.
+
+(* ---------------------------------------------------------------- the Go file uses what it imports *)
+Fixpoint contains (pat s : string) : bool :=
+  String.prefix pat s || match s with EmptyString => false | String _ t => contains pat t end.
+
+Lemma gen_go_without_tests d : tests_of_dir d = [] -> gen_go d = (go_header_no_tests ++ go_footer)%string.
+Proof. unfold gen_go. intros ->. reflexivity. Qed.
+
+Lemma gen_go_with_tests d : tests_of_dir d <> [] ->
+  gen_go d = (go_header ++ concat_str (map go_test (tests_of_dir d)) ++ go_footer)%string.
+Proof. unfold gen_go. destruct (tests_of_dir d); [congruence|reflexivity]. Qed.
+
+Lemma no_tests_file_does_not_mention_disk : contains "disk" (go_header_no_tests ++ go_footer) = false.
+Proof. vm_compute. reflexivity. Qed.
+
+Lemma go_test_mentions_disk t : contains "disk.Init" (go_test t) = true.
+Proof.
+  destruct t as [f n]. unfold go_test.
+  assert (H : forall a b, contains "disk.Init" b = true -> contains "disk.Init" (a ++ b) = true).
+  { induction a as [|c a IH]; intros b Hb; [exact Hb|]. cbn [String.append contains]. rewrite (IH _ Hb). apply Bool.orb_true_r. }
+  do 8 apply H. reflexivity.
+Qed.
+
+Lemma go_file_without_tests d : tests_of_dir d = [] ->
+  gen_go d = (go_header_no_tests ++ go_footer)%string /\ contains "disk" (gen_go d) = false.
+Proof.
+  intros H. rewrite (gen_go_without_tests d H). split; [reflexivity|exact no_tests_file_does_not_mention_disk].
+Qed.
+
+Lemma go_file_with_tests d : tests_of_dir d <> [] ->
+  gen_go d = (go_header ++ concat_str (map go_test (tests_of_dir d)) ++ go_footer)%string /\
+  forall t, In t (tests_of_dir d) -> contains "disk.Init" (go_test t) = true.
+Proof. intros H. split; [exact (gen_go_with_tests d H)|intros t _; exact (go_test_mentions_disk t)]. Qed.
